@@ -5,6 +5,7 @@
 #include <pika/execution.hpp>
 #include <pika/init.hpp>
 #include <pika/latch.hpp>
+#include <pika/modules/program_options.hpp>
 #include <pika/modules/resource_partitioner.hpp>
 #include <pika/modules/topology.hpp>
 #include <pika/resource_partitioner/detail/partitioner.hpp>
@@ -13,6 +14,7 @@
 
 #include <cstdio>
 #include <cstdlib>
+#include <memory>
 #include <mutex>
 #include <sstream>
 #include <string>
@@ -36,11 +38,18 @@ static std::string jesc(std::string const& s)
             o += '\\';
             o += (char) c;
         }
-        else if (c < 0x20) o += ' ';
+        else if (c < 0x20)
+        {
+            char b[8];
+            std::snprintf(b, sizeof b, "\\u%04x", c);
+            o += b;
+        }
         else o += (char) c;
     }
     return o;
 }
+
+static std::string g_vm_json;
 
 static int entry(int argc, char** argv)
 {
@@ -93,13 +102,45 @@ static int entry(int argc, char** argv)
         });
         l.arrive_and_wait();
         o << ",\"task_stack_size\":" << seen << ",\"task_stack_available\":" << avail;
+        // measured per stack-size class: a task of that class reports its size and touches the far end of its stack
+        struct m_t
+        {
+            pika::latch l{5};
+            std::ptrdiff_t size[4] = {0, 0, 0, 0}, avail[4] = {0, 0, 0, 0};
+            int touched[4] = {0, 0, 0, 0};
+        };
+        auto ms = std::make_shared<m_t>();
+        pika::execution::thread_stacksize cls[4] = {pika::execution::thread_stacksize::small_, pika::execution::thread_stacksize::medium,
+            pika::execution::thread_stacksize::large, pika::execution::thread_stacksize::huge};
+        for (int i = 0; i < 4; ++i)
+            ex::execute(ex::with_stacksize(ex::thread_pool_scheduler{}, cls[i]), [ms, i] {
+                ms->size[i] = pika::this_thread::get_stack_size();
+                std::ptrdiff_t a = pika::this_thread::get_available_stack_space();
+                ms->avail[i] = a;
+                // walk down the stack page by page, staying 3 pages clear of the reported end
+                if (a > 4 * 4096)
+                {
+                    std::size_t n = (std::size_t) a - 3 * 4096;
+                    char volatile* p = (char volatile*) __builtin_alloca(n);
+                    for (std::size_t k = 0; k < n; k += 4096) p[k] = 1;
+                    p[n - 1] = 1;
+                    ms->touched[i] = 1;
+                }
+                ms->l.count_down(1);
+            });
+        ms->l.arrive_and_wait();
+        o << ",\"measured\":{";
+        char const* nm[4] = {"small", "medium", "large", "huge"};
+        for (int i = 0; i < 4; ++i)
+            o << (i ? "," : "") << '"' << nm[i] << "\":{\"size\":" << ms->size[i] << ",\"available\":" << ms->avail[i] << ",\"touched\":" << ms->touched[i] << "}";
+        o << "}";
     }
     // selected configuration entries
     {
         auto const& cfg = pika::detail::get_config();
         o << ",\"ini\":{";
         char const* keys[] = {"pika.os_threads", "pika.scheduler", "pika.bind", "pika.process_mask", "pika.stacks.small_size", "pika.stacks.medium_size", "pika.stacks.large_size",
-            "pika.stacks.huge_size", "pika.verif.custom", "pika.max_idle_loop_count"};
+            "pika.stacks.huge_size", "pika.verif.custom", "pika.max_idle_loop_count", "pika.max_busy_loop_count", "pika.thread_queue.max_thread_count", "pika.shutdown_check_count"};
         bool first = true;
         for (auto k : keys)
         {
@@ -162,11 +203,53 @@ static int entry(int argc, char** argv)
         }
         o << "]";
     }
-    o << "}";
+    o << g_vm_json << "}";
     std::puts(o.str().c_str());
     std::fflush(stdout);
     pika::finalize();
     return 0;
+}
+
+// variables_map flavour of the entry point (VERIF_ENTRY=vm): what the application sees of its own registered options
+static int entry_vm(pika::program_options::variables_map& vm)
+{
+    std::ostringstream o;
+    o << ",\"vm\":{";
+    bool first = true;
+    auto sep = [&] {
+        o << (first ? "" : ",");
+        first = false;
+    };
+    if (vm.count("app-n"))
+    {
+        sep();
+        o << "\"app-n\":" << vm["app-n"].as<int>();
+    }
+    if (vm.count("app-name"))
+    {
+        sep();
+        o << "\"app-name\":\"" << jesc(vm["app-name"].as<std::string>()) << "\"";
+    }
+    if (vm.count("app-flag"))
+    {
+        sep();
+        o << "\"app-flag\":true";
+    }
+    if (vm.count("pika:positional"))
+    {
+        sep();
+        o << "\"positional\":[";
+        bool f2 = true;
+        for (auto const& x : vm["pika:positional"].as<std::vector<std::string>>())
+        {
+            o << (f2 ? "" : ",") << '"' << jesc(x) << '"';
+            f2 = false;
+        }
+        o << "]";
+    }
+    o << "}";
+    g_vm_json = o.str();
+    return entry(g_argc > 0 ? 1 : 0, g_argv);
 }
 
 int main(int argc, char** argv)
@@ -181,6 +264,13 @@ int main(int argc, char** argv)
             if (!tok.empty()) g_extra.emplace_back(std::atoi(tok.c_str()), (unsigned) std::atoi(tok.substr(tok.find(':') + 1).c_str()));
     }
     pika::init_params p;
+    pika::program_options::options_description app("probe options");
+    if (std::getenv("VERIF_APP_OPTS"))
+    {
+        app.add_options()("app-n", pika::program_options::value<int>(), "an integer")(
+            "app-name", pika::program_options::value<std::string>(), "a string")("app-flag", "a flag");
+        p.desc_cmdline = app;
+    }
     if (!g_extra.empty())
         p.rp_callback = [](pika::resource::partitioner& rp, pika::program_options::variables_map const&) {
             std::vector<pika::resource::pu const*> pus;
@@ -202,7 +292,8 @@ int main(int argc, char** argv)
     int rc = 1;
     try
     {
-        rc = pika::init(entry, argc, argv, p);
+        if (std::getenv("VERIF_ENTRY_VM")) rc = pika::init(std::function<int(pika::program_options::variables_map&)>(entry_vm), argc, argv, p);
+        else rc = pika::init(std::function<int(int, char**)>(entry), argc, argv, p);
         std::printf("@@INIT returned %d\n", rc);
     }
     catch (std::exception const& e)
